@@ -1,4 +1,5 @@
 import EosProofs.Lemmas.MicroLegal
+import EosProofs.Lemmas.MicroAssembly
 /-! # C01, layer 2 — the message handlers of the calculation service keep the attribute cache coherent
 
 `EosProofs/Props/C01.lean` (layer 1) shows that *any* history of reads and mutations whose removal sets are
@@ -124,5 +125,99 @@ example : rankWF tinyU = true ∧ UniqueAttrs tinyU ∧ ResistWF tinyU ∧ Uniqu
     subst hx; cases hk
   · intro a e t ht
     simp [targetsOf, tinyS] at ht
+
+/-! ## The incrementally maintained cache agrees with the from-scratch table -/
+
+/-- **Headline: after any message history that ends in a settled state, every read returns the entry of the
+specification's table** `World.evalAll` — the table the driver computes from scratch and the differential
+run compares the real code with.  `worldGraph` is the graph family of the message-level model (override
+nodes — skill levels — are not dependencies: the real code never caches them).
+
+Hypotheses, in terms of the property's quantifier:
+* `hwf : rankWF u` — the attribute dependencies of the universe are acyclic (listed in rank order);
+* `hun : UniqueAttrs u` — attribute ids are unique;
+* `hR : ResistWF u` — resistance attributes only on effects with projected, non owner-skill modifiers;
+* `hb` — no warfare-buff effects (fleet boosts are outside the message-level layer);
+* `hU, hC, hT` — the initial configuration has unique item ids, charges sit in modules of their own fit,
+  recorded projection targets are ships / drones / fighters (each is kept by every step);
+* `ok : WRunOKE …` — every event is taken under its side conditions: reads fill dependency-closed sets;
+  messages satisfy `StepOK` (K1: a loaded / unloaded item is not a recorded projection target; effects are
+  started before they are applied and unapplied before they are stopped; an item is loaded with nothing of
+  it cached and none of its effects running) and *non-zero divisors*: no attribute calculation of the state
+  before and after a load / unload / start / stop / apply / unapply ends in a division by zero (`ErrorFree`,
+  which discharges `StaticAround`); level changes satisfy `RelevelOK`;
+* `hset` — the history ends in a settled state: exactly the effects the specification selects run and are
+  applied to the items' current targets (`derivedDyn`);
+* `hnz` — non-zero divisors for the final configuration: the table has no `divZero` entry.
+Conclusion: for every configured item and attribute with metadata, what a read observes (the cached value
+if there is one, a fresh calculation otherwise) is `World.read` of the table. -/
+theorem world_read_eq_table (hwf : rankWF u = true) (hun : UniqueAttrs u) (hR : ResistWF u)
+    (hb : ∀ e ∈ u.effects, e.isBuff = false) {cfg : Config} {d : Dyn} (hU : UniqueIds cfg) (hC : ChargeWF cfg)
+    (hT : TgtKinds cfg d) (steps : List WStep)
+    (ok : WRunOKE u immune limited pen (worldGraph u immune limited pen hwf) ⟨cfg, d, fun _ => none⟩ steps)
+    (sF : MState) (hF : wrun u (worldGraph u immune limited pen hwf) ⟨cfg, d, fun _ => none⟩ steps = sF)
+    (hset : sF.dyn = derivedDyn u sF.cfg)
+    (hnz : ∀ entry ∈ evalAll u sF.cfg immune limited pen, entry.2 ≠ .divZero)
+    {x : Item} (hx : x ∈ sF.cfg.items) {am : AttrMeta} (ham : am ∈ u.attrs) :
+    observe (worldGraph u immune limited pen hwf) (toState sF) (x.id, am.id) =
+      valToOption (World.read (evalAll u sF.cfg immune limited pen) x am.id) := by
+  subst hF
+  have T := worldGraph_ties (immune := immune) (limited := limited) (pen := pen) hwf
+  have okW := wrunOK_of_errorFree T steps _ ok
+  rw [micro_read_eq_spec T hwf hun hR hU hC hT steps okW, hset]
+  exact settled_spec_eq_table hb hwf hun (micro_inv_run T hwf hun hR hU hC hT steps okW).uniq hnz hx ham
+
+/-- The same with "non-zero divisors" of the final state stated like that of the states passed through
+(`ErrorFree` of the settled state); the table then has no `divZero` at the entries read. -/
+theorem world_read_eq_table_of_errorFree (hwf : rankWF u = true) (hun : UniqueAttrs u) (hR : ResistWF u)
+    (hb : ∀ e ∈ u.effects, e.isBuff = false) {cfg : Config} {d : Dyn} (hU : UniqueIds cfg) (hC : ChargeWF cfg)
+    (hT : TgtKinds cfg d) (steps : List WStep)
+    (ok : WRunOKE u immune limited pen (worldGraph u immune limited pen hwf) ⟨cfg, d, fun _ => none⟩ steps)
+    (sF : MState) (hF : wrun u (worldGraph u immune limited pen hwf) ⟨cfg, d, fun _ => none⟩ steps = sF)
+    (hset : sF.dyn = derivedDyn u sF.cfg)
+    (hef : ErrorFree u immune limited pen (worldGraph u immune limited pen hwf) sF.cfg sF.dyn)
+    {x : Item} (hx : x ∈ sF.cfg.items) {am : AttrMeta} (ham : am ∈ u.attrs) :
+    observe (worldGraph u immune limited pen hwf) (toState sF) (x.id, am.id) =
+      valToOption (World.read (evalAll u sF.cfg immune limited pen) x am.id) ∧
+    World.read (evalAll u sF.cfg immune limited pen) x am.id ≠ .divZero := by
+  subst hF
+  have T := worldGraph_ties (immune := immune) (limited := limited) (pen := pen) hwf
+  have okW := wrunOK_of_errorFree T steps _ ok
+  rw [micro_read_eq_spec T hwf hun hR hU hC hT steps okW]
+  rw [hset] at hef ⊢
+  exact settled_spec_eq_table_of_errorFree hb hwf hun (micro_inv_run T hwf hun hR hU hC hT steps okW).uniq hef hx ham
+
+/-- Attributes without metadata: a read observes no value in any reachable state, and the table's read is
+absent (except that `World.read` answers a skill's level from the item even when attribute 280 has no
+metadata — the one place where the two differ). -/
+theorem world_read_no_meta (hwf : rankWF u = true) (hun : UniqueAttrs u) (hR : ResistWF u)
+    {cfg : Config} {d : Dyn} (hU : UniqueIds cfg) (hC : ChargeWF cfg) (hT : TgtKinds cfg d) (steps : List WStep)
+    (ok : WRunOKE u immune limited pen (worldGraph u immune limited pen hwf) ⟨cfg, d, fun _ => none⟩ steps)
+    (sF : MState) (hF : wrun u (worldGraph u immune limited pen hwf) ⟨cfg, d, fun _ => none⟩ steps = sF)
+    (x : Item) {a : Int} (ha : attrMeta? u a = none) (hov : ¬ (x.kind = .skill ∧ a = 280)) :
+    observe (worldGraph u immune limited pen hwf) (toState sF) (x.id, a) = none ∧
+    World.read (evalAll u sF.cfg immune limited pen) x a = .absent := by
+  subst hF
+  have T := worldGraph_ties (immune := immune) (limited := limited) (pen := pen) hwf
+  have okW := wrunOK_of_errorFree T steps _ ok
+  rw [micro_read_eq_spec T hwf hun hR hU hC hT steps okW]
+  exact ⟨spec_no_meta hwf _ ha, read_no_meta ha hov⟩
+
+/-! ## Non-vacuity of the headline
+
+The history `settleHist` (`Lemmas/MicroAssembly.lean`: two effects of a module started, each applied to the
+ship, then a read) satisfies every hypothesis of `world_read_eq_table`; the read of the ship's attribute 37
+observes the table's entry, (100 + 3/2 − 3/2) · 3/2 · 3/2 = 225. -/
+
+example : observe settleW (toState (wrun settleU settleW settleS0 settleHist)) (1, 37) =
+    valToOption (World.read (evalAll settleU settleCfg specImmune specLimited (fun _ => 1)) settleShip 37) :=
+  world_read_eq_table (by decide) settle_wf.1 settle_wf.2.1 (by decide) settle_wf.2.2.1 settle_wf.2.2.2.1
+    settle_wf.2.2.2.2 settleHist settle_runOK _ rfl settle_hset (by decide +kernel) (x := settleShip)
+    List.mem_cons_self (am := ⟨37, none, none, true, true⟩) (List.mem_cons_of_mem _ List.mem_cons_self)
+
+example : observe settleW (toState (wrun settleU settleW settleS0 settleHist)) (1, 37) = some 225 ∧
+    World.read (evalAll settleU settleCfg specImmune specLimited (fun _ => 1)) settleShip 37 = .ok 225 ∧
+    (wrun settleU settleW settleS0 settleHist).cache (1, 37) = some 225 := by
+  refine ⟨by decide +kernel, by decide +kernel, by decide +kernel⟩
 
 end Eos.C01World
